@@ -94,4 +94,64 @@ theorem c1o_regroup_diff (L L' : List Nat) (f g : Nat → Int) (m : Nat) (hL : L
     have h2 : m ∉ L' := fun hm => hlt (hN m (List.mem_append_right _ hm))
     rw [hf m h1, hg m h2]; rfl
 
+/-- two functions that agree off the duplicate-free list `Q`: their sums over `0 … N-1` differ by the sum over `Q` of
+    their differences (members `≥ N` not counted) -/
+theorem c1o_range_diff_list (g : Nat → Int) (N : Nat) : ∀ (Q : List Nat) (f : Nat → Int), Q.Nodup →
+    (∀ x, x ∉ Q → f x = g x) →
+    sumBy f (List.range N) - sumBy g (List.range N) = sumBy (fun x => if x < N then f x - g x else 0) Q := by
+  intro Q
+  induction Q with
+  | nil =>
+    intro f _ h
+    rw [sumBy_nil, sumBy_congr f g _ (fun x _ => h x (List.not_mem_nil))]
+    omega
+  | cons a t ih =>
+    intro f hnd h
+    rw [List.nodup_cons] at hnd
+    have hf' : ∀ x, x ∉ t → (fun x => if x = a then g a else f x) x = g x := by
+      intro x hx
+      by_cases hxa : x = a
+      · simp [hxa]
+      · simp only [if_neg hxa]
+        apply h
+        intro hmem
+        rcases List.mem_cons.mp hmem with e | e
+        · exact hxa e
+        · exact hx e
+    have i1 := ih (fun x => if x = a then g a else f x) hnd.2 hf'
+    have i2 : sumBy (fun x => if x < N then (fun x => if x = a then g a else f x) x - g x else 0) t =
+        sumBy (fun x => if x < N then f x - g x else 0) t := by
+      apply sumBy_congr
+      intro x hx
+      have : x ≠ a := fun e => hnd.1 (e ▸ hx)
+      simp [this]
+    have i3 := c1o_range_diff f (fun x => if x = a then g a else f x) a (fun x hx => by simp [hx]) N
+    simp only [if_true] at i3
+    rw [i2] at i1
+    rw [sumBy_cons]
+    by_cases ha : a < N
+    · rw [if_pos ha] at i3 ⊢
+      omega
+    · rw [if_neg ha] at i3 ⊢
+      omega
+
+/-- `f` regrouped over the duplicate-free list `L`, `g` over `L'`, each vanishing outside its list, and `f = g` off
+    the duplicate-free list `Q`: the two totals differ by the sum over `Q` of `f − g` -/
+theorem c1o_regroup_diff_list (L L' Q : List Nat) (f g : Nat → Int) (hL : L.Nodup) (hL' : L'.Nodup) (hQ : Q.Nodup)
+    (hf : ∀ x, x ∉ L → f x = 0) (hg : ∀ x, x ∉ L' → g x = 0) (h : ∀ x, x ∉ Q → f x = g x) :
+    sumBy f L - sumBy g L' = sumBy (fun x => f x - g x) Q := by
+  obtain ⟨N, hN⟩ := c1o_bounded (L ++ L')
+  have e1 := c1o_sum_range N L f hL (fun x hx => hN x (List.mem_append_left _ hx)) hf
+  have e2 := c1o_sum_range N L' g hL' (fun x hx => hN x (List.mem_append_right _ hx)) hg
+  have e3 := c1o_range_diff_list g N Q f hQ h
+  rw [e1, e2, e3]
+  apply sumBy_congr
+  intro x _
+  by_cases hlt : x < N
+  · simp only [if_pos hlt]
+  · simp only [if_neg hlt]
+    have h1 : x ∉ L := fun hm => hlt (hN x (List.mem_append_left _ hm))
+    have h2 : x ∉ L' := fun hm => hlt (hN x (List.mem_append_right _ hm))
+    rw [hf x h1, hg x h2]; rfl
+
 end Sge.Core
